@@ -95,11 +95,13 @@ CLAIMED["C11"] = (
     "arithmetic, third-party store behaviour, reopen.",
     "Trusted: rustc nightly MIR (both build shapes); self-delimiting encodings (C12.b); distinct StableTypeIDs (C14).")
 CLAIMED["C12"] = (
-    "wire-shape extraction: Encode/Decode MIR bodies -> finite automata over wire events, impl selection by type unification, determinisation + product search for language equivalence; primitive table by delegation closure",
+    "wire-shape extraction: Encode/Decode MIR bodies -> finite automata over wire events, impl selection by type unification, determinisation + product search for language equivalence; primitive table by delegation closure; "
+    "field-order correspondence; compile-time witness crate of const assertions for the varint / zig-zag const fns",
     "Decides: every Decode impl (119, incl. macro-generated and derived, smallvec/bitvec on) reads exactly the event language that the Encode impl selected for the "
     "same type writes, including tag constants; repetitions are length-prefixed and variant alternations start with distinct constant tags; emit_X/read_X use the "
     "same wire primitive for all 19 X; for 26 + 15 (derive fixtures) struct/enum types the i-th value written comes from the field the i-th value read is stored into; "
-    "interned handles: C15.c's first-occurrence rule (as C12.f). Not decided: varint/zig-zag arithmetic, value equality after decoding.",
+    "interned handles: C15.c's first-occurrence rule (as C12.f); (C12.g, witness) the const varint encoders emit minimal LEB128 and zig-zag is the standard bijection with its inverse "
+    "on every power-of-two boundary of every width, as computed by rustc's const evaluator. Not decided: the (non-const) varint readers' arithmetic, varint/zig-zag arithmetic, value equality after decoding.",
     "Trusted: rustc nightly MIR; ToOwned pairs encode alike (checked for str/String, [T]/Vec<T>, Path/PathBuf).")
 CLAIMED["C13"] = (
     "framing rules (length before repetition, discriminant before alternation) and order-independence rules over every StableHash MIR body; forbidden-input who-may-call rule; float/integer/seeding def-use rules",
@@ -146,16 +148,17 @@ m = {
     "version": 1,
     "setup_cmd": "./setup.sh",
     "hooks": {"guard": "qbice_verif",
-              "enable": "none needed: the static engines read private items directly from rustc's MIR; no source hook is compiled in",
+              "enable": "RUSTFLAGS=--cfg qbice_verif, set by engine/qbv/witness.py for the C12.g witness crate only (public wrappers "
+                        "postcard::verif_hooks around the private const varint / zig-zag helpers); every other check reads private items from rustc's MIR and needs no hook",
               "baseline_off_cmd": "cd /repo && cargo test --workspace --no-fail-fast --offline",
-              "source_commits": [], "add_only": True},
+              "source_commits": ["2aa8ef6"], "add_only": True},
     "engines": [
         {"name": "E1 fact extractor", "path": "engine/driver", "serves_properties": ids,
          "kind_free_text": "rustc_private driver (nightly) dumping promoted MIR, rustc's maybe-initialised move paths, impl/ADT/signature tables as JSON"},
         {"name": "E2 rule analyser", "path": "engine/qbv", "serves_properties": ids,
          "kind_free_text": "Python 3 stdlib: CFG, dominators, reachability with removed nodes/edges, def-use slices, await map, may-suspend / run-to-completion fixpoints, per-property rule tables"},
-        {"name": "E4 const-assertion witness", "path": "engine/qbv/witness.py", "serves_properties": ["C14"],
-         "kind_free_text": "generated crate of `const _: () = assert!(..)` items path-depending on /repo's qbice_stable_type_id; type-checked (never linked or run) with cargo +nightly check; failed assertions are build errors"},
+        {"name": "E4 const-assertion witness", "path": "engine/qbv/witness.py", "serves_properties": ["C12", "C14"],
+         "kind_free_text": "generated crates of `const _: () = assert!(..)` items path-depending on /repo's qbice_stable_type_id (C14.f) and qbice_serialize built with --cfg qbice_verif (C12.g); type-checked (never linked or run) with cargo +nightly check; failed assertions are build errors"},
     ],
     "checks": checks,
     "not_applicable": [{"property_id": i, "reason": NOT_YET} for i in ids if i not in CLAIMED],
